@@ -119,6 +119,29 @@ func run(r *report.Run, cc *sim.ChainCase) *report.Failure {
 			if info.Slips > 0 {
 				r.ClassN("builder-op-slips", int64(info.Slips))
 			}
+			// measured, not assumed: a sync-committee member with (almost) no balance holding several seats of
+			// which some participate and some do not — where per-seat order and saturation are observable
+			if info.Fork >= 1 && info.Pre != nil && res.Block != nil && len(res.Block.Message.Body.SyncAggregate.Bits) == len(info.Pre.CurrentSyncCommittee.Pubkeys) {
+				byKey := map[[48]byte]int{}
+				for i := range info.Pre.Validators {
+					byKey[info.Pre.Validators[i].Pubkey] = i
+				}
+				on, off := map[int]int{}, map[int]int{}
+				for i, pk := range info.Pre.CurrentSyncCommittee.Pubkeys {
+					vi := byKey[pk]
+					if res.Block.Message.Body.SyncAggregate.Bits[i] {
+						on[vi]++
+					} else {
+						off[vi]++
+					}
+				}
+				for vi, k := range off {
+					if on[vi] > 0 && k > 0 && info.Pre.Balances[vi] < 1_000_000 {
+						r.Hit("sync-member-near-zero-balance-with-mixed-seats")
+						break
+					}
+				}
+			}
 		}
 	}
 	return nil
@@ -181,7 +204,7 @@ func TestCheck(t *testing.T) {
 	if r.Replay != "" {
 		return
 	}
-	r.Mandatory("fork:phase0", "fork:altair", "fork:bellatrix", "fork:capella", "fork:deneb", "block-with>=3-kinds", "post-upgrade-epoch-block", "exit-behind-nonempty-queue", "withdrawal-carrying-payload")
+	r.Mandatory("fork:phase0", "fork:altair", "fork:bellatrix", "fork:capella", "fork:deneb", "block-with>=3-kinds", "post-upgrade-epoch-block", "exit-behind-nonempty-queue", "withdrawal-carrying-payload", "sync-member-near-zero-balance-with-mixed-seats")
 	// ---- class tours: directed templates for deep situations the free generator reaches too rarely
 	nt := 2
 	if r.Thorough() {
@@ -189,6 +212,10 @@ func TestCheck(t *testing.T) {
 	}
 	r.Search(t, "tour-withdrawal-edges", 101, nt, func(rt *rapid.T) (any, *report.Failure) {
 		cc := sim.TourWithdrawalEdges(rt, nil)
+		return cc, run(r, cc)
+	})
+	r.Search(t, "tour-withdrawn-sync-members", 103, nt, func(rt *rapid.T) (any, *report.Failure) {
+		cc := sim.TourWithdrawnSyncMembers(rt, nil)
 		return cc, run(r, cc)
 	})
 	r.Search(t, "tour-deposits", 102, nt, func(rt *rapid.T) (any, *report.Failure) {
